@@ -61,6 +61,13 @@ def cases(tier, seed):
             out.append({"id": "equalaxes:ori#%d:n=%r" % (i, n),
                         "kind": "equalaxes", "beta": b, "gamma": g,
                         "n": [complex(n).real, complex(n).imag]})
+    # large tilted particles (many azimuthal modes; directions close to the
+    # particle's axis)
+    for x in (15.0, 20.0):
+        for j, (b, g) in enumerate([(0.1, 0.7), (0.25, 2.0), (1.2, -0.4)]):
+            out.append({"id": "equalaxes-large:x=%g:ori#%d" % (x, j),
+                        "kind": "equalaxes", "beta": b, "gamma": g,
+                        "n": [1.59, 0.0], "x": x})
     for sh in SYM_SHAPES[tier]:
         for i, (b, g) in enumerate(ORI):
             out.append({"id": "sym:%s:ori#%d" % (sh, i), "kind": "sym",
@@ -301,6 +308,9 @@ def _run_sphere(case, ck):
     return digest(*fps)
 
 
+TOL_EQUALAXES_LARGE = 8e-6     # [9.7e-7]
+
+
 def _run_equalaxes(case, ck):
     import holopy as hp
     from holopy.scattering import (Sphere, Spheroid, Tmatrix,
@@ -308,7 +318,10 @@ def _run_equalaxes(case, ck):
     b, g = case["beta"], case["gamma"]
     nidx = complex(*case["n"])
     nidx = nidx.real if nidx.imag == 0 else nidx
-    a = 5.0 / H.K
+    xsz = case.get("x", 5.0)
+    tol = 1e-4 if xsz == 5.0 else TOL_EQUALAXES_LARGE
+    tag = "equal-axes" if xsz == 5.0 else "equal-axes-large"
+    a = xsz / H.K
     th = np.repeat(THETA, len(PHI))
     ph = np.tile(PHI, len(THETA))
     det = hp.detector_points(theta=th, phi=ph)
@@ -318,17 +331,18 @@ def _run_equalaxes(case, ck):
     T = calc_scat_matrix(det, sph, H.NMED, H.WL, theory=Tmatrix()).values
     ck.trans += 2
     e = float(np.abs(S - T).max() / np.abs(T).max())
-    ck.metric("equal-axes", e)
-    ck.true("equal-axes", e <= 1e-4, "spheroid with equal semi-axes differs "
-            "from the sphere by %.2e (beta=%r gamma=%r)" % (e, b, g))
+    ck.metric(tag, e)
+    ck.true("equal-axes", e <= tol, "spheroid with equal semi-axes (x=%g) "
+            "differs from the sphere by %.2e (beta=%r gamma=%r)" %
+            (xsz, e, b, g))
     pts = _pts(3e3 / H.K)
     detp = hp.detector_points(x=pts[:, 0], y=pts[:, 1], z=pts[:, 2])
     f = calc_field(detp, spo, H.NMED, H.WL, (1, 0), theory=Tmatrix()).values
     h = calc_field(detp, sph, H.NMED, H.WL, (1, 0), theory=Tmatrix()).values
     ck.trans += 2
     e = float(np.abs(f - h).max() / np.abs(h).max())
-    ck.metric("equal-axes", e)
-    ck.true("equal-axes-field", e <= 1e-4, "field of the equal-axes "
+    ck.metric(tag, e)
+    ck.true("equal-axes-field", e <= tol, "field of the equal-axes "
             "spheroid differs from the sphere's by %.2e" % e)
     return digest(fp_values(S), fp_values(f))
 
